@@ -32,14 +32,14 @@ type Doc struct {
 
 // Q is a query tree.
 type Q struct {
-	Op    string // and | or | not | lit | in | range | all
-	Kids  []*Q
-	Field string
-	Pat   string   // lit: glob with '*' wildcards, every other byte literal
-	Pats  []string // in
-	Lo, Hi             string
-	LoInc, HiInc       bool
-	LoUnb, HiUnb       bool
+	Op           string // and | or | not | lit | in | range | all
+	Kids         []*Q
+	Field        string
+	Pat          string   // lit: glob with '*' wildcards, every other byte literal
+	Pats         []string // in
+	Lo, Hi       string
+	LoInc, HiInc bool
+	LoUnb, HiUnb bool
 }
 
 // Glob reports whether tok matches pat where '*' matches any (possibly empty) byte string. Plain DP.
